@@ -33,5 +33,7 @@ def run(chk):
     from . import executor_contracts as X
     X.batch_replay_consistency(chk, "C02")
     X.replay_items(chk, "C02")   # the batch rebuilt from records is classified with the SAME completion config as the first run
+    from . import c15
+    c15.containers(chk, only=("list", "dict.str_keys"), prefix="C02")   # RT for containers incl. ownership: what a replay delivers is a fresh value, not an object another delivery can have mutated
     from . import lockset
     lockset.lock_discipline(chk, "C02", ["operations"])   # a re-invocation (REPLAY status) must not raise what the first run cannot: track_replay iterates the map the checkpoint thread updates
